@@ -649,6 +649,11 @@ def task_fixed(ctx):
 
 
 def tasks(tier):
+    from .. import depth
+    return _tasks(tier) + [("little-stack", depth.task, dict(prop=PROPERTY))]
+
+
+def _tasks(tier):
     if tier == "quick":
         return [("tree-a", task_tree, dict(n=500, depth=2)),
                 ("tree-b", task_tree, dict(n=500, depth=3)),
@@ -682,6 +687,9 @@ def tasks(tier):
 
 
 def replay(ctx, case):
+    if isinstance(case, dict) and case.get("kind") == "little-stack":
+        from .. import depth
+        return depth.check(ctx, case)
     k = case["kind"]
     if k == "tree":
         check_tree(ctx, (case["tree"], case.get("table", "public"), case.get("name")))
